@@ -250,6 +250,12 @@ def gen_config(rng, with_decimal=False, decimal_widths=(3, 6, 8, 12, 15)):
                 fc.setdefault('field_processor_config', '')
             fc.setdefault('field_python_type', 'string')
             fc.setdefault('field_date_format', '%y%m%d')
+    # `field_name` is a description for people: every third configuration leaves it out of some (or all) of its entries
+    if rng.random() < 0.34:
+        drop_all = rng.random() < 0.4
+        for fc in cfg.values():
+            if drop_all or rng.random() < 0.5:
+                fc.pop('field_name', None)
     # the ORDER of the keys of a caller's configuration carries no meaning: a configuration loaded from JSON written with
     # sort_keys=True has them in text order ('10', '100', '11', ..., '2'), one assembled at run time in any order
     how = rng.random()
